@@ -597,6 +597,92 @@ for i in range(40 if not THOROUGH else 400):
     name, ks = R.choice(CONFIGS)
     inv_run(spec, ks, "inventory-random")
 
+# ------------------------------------------------------------------ the tool as an operator starts it: kskm-keymaster's main() with its own logging set-up, standard error
+# not a terminal (redirected, a wrapper script, cron). What the tool "reports" is what reaches standard error or the log file it opens.
+import glob
+import io
+import shutil
+import tempfile
+
+
+def tool_run(argv, tok, cfg, answer="Yes"):
+    d = tempfile.mkdtemp(prefix="c19-tool-", dir=str(vlib.WORK))
+    emu.install(tok)
+    root = logging.getLogger()
+    saved = (root.handlers[:], root.level, logging.root.manager.disable, sys.argv, sys.stderr, os.getcwd(), tool.get_config, builtins.input)
+    root.handlers = []
+    logging.disable(logging.NOTSET)
+    klog = logging.getLogger("kskm")
+    kprop, klog.propagate = klog.propagate, True          # the harness keeps kskm's records off the root logger; the tool's own set-up starts from the defaults
+    err = io.StringIO()
+    status = None
+    try:
+        os.chdir(d)
+        sys.argv, sys.stderr = ["kskm-keymaster", "--config", "ksrsigner.yaml"] + argv, err
+        tool.get_config = lambda fn: cfg
+        builtins.input = lambda prompt="": answer
+        try:
+            with contextlib.redirect_stdout(io.StringIO()):
+                r = tool.main()
+            status = 1 if r is False else 0
+        except SystemExit as e:
+            status = e.code if isinstance(e.code, int) else 1
+        except BaseException as e:  # noqa: BLE001
+            status = f"uncaught {type(e).__name__}"
+        for h_ in root.handlers:
+            try:
+                h_.flush(); h_.close()
+            except Exception:  # noqa: BLE001
+                pass
+        files = "".join(open(f_, errors="replace").read() for f_ in glob.glob(os.path.join(d, "*.log")))
+    finally:
+        root.handlers, root.level = saved[0], saved[1]
+        klog.propagate = kprop
+        logging.disable(saved[2])
+        sys.argv, sys.stderr = saved[3], saved[4]
+        os.chdir(saved[5])
+        tool.get_config, builtins.input = saved[6], saved[7]
+        shutil.rmtree(d, ignore_errors=True)
+    return status, err.getvalue() + "\n" + files
+
+
+import contextlib
+import os
+vlib.WORK.mkdir(exist_ok=True)
+for rnd_ in range(2):
+    pre = PRE[rnd_]
+    tok = S.build_token([[{"id": 0, "objs": S.pair("Kpre", pre)}]])
+    newkey = NEW[2048][rnd_]
+    tok.keygen_hook = lambda bits, e, _k=newkey: _k
+    cfg_ = ceremony.make_config({"k": ceremony.ksk_def(pre, label="Kpre")}, {"s": {i: {"publish": "k", "sign": "k"} for i in range(1, 10)}}, hsm={"m0": {"module": "emu:0", "pin": "1234"}})
+    t1, t2, ds = tags_of(newkey)
+    st, report = tool_run(["keygen", "--label", f"Knew{rnd_}", "--algorithm", "RSASHA256", "--size", "2048"], tok, cfg_)
+    count("tool-main-keygen")
+    made = [o for sl in tok.modules.values() for s_ in sl for o in s_.objects if o.label == f"Knew{rnd_}"]
+    if st != 0 or len(made) != 2:
+        rep.violation("impl-vs-spec", f"kskm-keymaster keygen (main(), no terminal): status {st}, {len(made)} objects under the new label; a fresh label on a healthy token must give one pair and status 0",
+                      {"kind": "tool-main-keygen", "report": report[-1500:]})
+    elif str(t1) not in report or str(t2) not in report or ds not in report.upper():
+        rep.violation("impl-vs-spec", f"kskm-keymaster keygen (main(), standard error not a terminal): the key was generated but its key tag {t1}, REVOKE key tag {t2} and DS {ds[:16]}... "
+                      f"are reported neither on standard error nor in the log file the tool opened",
+                      {"kind": "tool-main-keygen", "report": report[-1500:], "key_tag": t1, "revoked_key_tag": t2, "ds": ds})
+    st, report = tool_run(["inventory"], tok, cfg_)
+    count("tool-main-inventory")
+    want_tag = pre["tag"]
+    if st != 0 or "Kpre" not in report or f"Knew{rnd_}" not in report or str(want_tag) not in report:
+        rep.violation("impl-vs-spec", f"kskm-keymaster inventory (main(), standard error not a terminal): status {st}; the token's key pairs (Kpre, Knew{rnd_}) and the configured KSK's "
+                      f"key tag {want_tag} are not all listed on standard error or in the log file the tool opened", {"kind": "tool-main-inventory", "report": report[-1500:]})
+    st, report = tool_run(["keydelete", "--label", f"Knew{rnd_}"], tok, cfg_, answer="yes")
+    left = [o for sl in tok.modules.values() for s_ in sl for o in s_.objects if o.label == f"Knew{rnd_}"]
+    count("tool-main-keydelete")
+    if len(left) != 2:
+        rep.violation("impl-vs-spec", f"kskm-keymaster keydelete (main()) removed objects after the answer 'yes' (not exactly 'Yes')", {"kind": "tool-main-keydelete", "report": report[-800:]})
+    st, report = tool_run(["keydelete", "--label", f"Knew{rnd_}"], tok, cfg_, answer="Yes")
+    left = [o for sl in tok.modules.values() for s_ in sl for o in s_.objects if o.label == f"Knew{rnd_}"]
+    rest = [o for sl in tok.modules.values() for s_ in sl for o in s_.objects if o.label == "Kpre"]
+    if left or len(rest) != 2 or st != 0:
+        rep.violation("impl-vs-spec", f"kskm-keymaster keydelete (main()) after 'Yes': status {st}, {len(left)} objects left under the label, {len(rest)} of the other pair", {"kind": "tool-main-keydelete", "report": report[-800:]})
+
 ok_build, log = vlib.make(["Checks/C19Check.vo"])
 runner = vlib.CaseRun("C19", "main", "From KV Require Import Base.Prelude Base.Exn Model.Data Model.Token Model.Sign Model.Keymaster Checks.SignCheck Checks.C19Check.",
                       "case", "check", shard=40)
